@@ -42,6 +42,9 @@ theorem step_inv {p : Pool} (h : PoolInv p) (op : Op) : PoolInv (step p op).1 :=
     exact onMol_inv h i _ (fun m hm => addOrReplace_inv hm ty atoms params version cites)
   | removeInter i ty atoms version =>
     exact onMol_inv h i _ (fun m hm => removeInter_inv hm ty atoms version)
+  | removeMatching i ty t => exact onMol_inv h i _ (fun m hm => removeMatching_inv hm ty t)
+  | pruneEdges i a b => exact onMol_inv h i _ (fun m hm => pruneEdges_inv hm a b)
+  | pruneByName i na nb => exact onMol_inv h i _ (fun m hm => pruneByName_inv hm na nb)
   | copy i =>
     simp only [step]
     cases hm : p[i]? with
@@ -90,6 +93,7 @@ def Op.target : Op → Option Nat
   | .addNode i .. => some i | .addNodes i .. => some i | .removeNode i .. => some i
   | .removeNodes i .. => some i | .addEdge i .. => some i | .addInter i .. => some i
   | .addOrReplace i .. => some i | .removeInter i .. => some i | .merge i _ => some i
+  | .removeMatching i .. => some i | .pruneEdges i .. => some i | .pruneByName i .. => some i
   | .copy _ => none | .subgraph .. => none | .newMol _ => none | .fromBlock .. => none
 
 theorem onMol_frame (p : Pool) (i : Nat) (f : Mol → Mol × Outcome) :
@@ -226,6 +230,15 @@ theorem step_err (p : Pool) (op : Op) (h : (step p op).2 ≠ .ok) : (step p op).
     split
     · rename_i l hl; rw [hl] at hm; exact absurd rfl hm
     · rfl
+  | removeMatching i ty t =>
+    apply onMol_err p i _ _ h
+    intro m hm
+    unfold Mol.removeMatching at hm ⊢
+    split
+    · rename_i l hl; rw [hl] at hm; exact absurd rfl hm
+    · rfl
+  | pruneEdges i a b => exact onMol_err p i _ (fun m hm => absurd rfl hm) h
+  | pruneByName i na nb => exact onMol_err p i _ (fun m hm => absurd rfl hm) h
   | copy i =>
     simp only [step] at h ⊢
     split
